@@ -231,7 +231,7 @@ impl RouterSocket {
     };
 
     if self.framing.is_manual() {
-      return Ok((identity_blob, raw_zmtp_message));
+      return Self::with_room_for_identity(identity_blob, raw_zmtp_message);
     }
 
     match peer_socket_type.as_deref() {
@@ -259,7 +259,18 @@ impl RouterSocket {
       }
     }
 
-    Ok((identity_blob, raw_zmtp_message))
+    Self::with_room_for_identity(identity_blob, raw_zmtp_message)
+  }
+
+  /// The application sees `[identity, payload...]`: a payload that already fills a message
+  /// leaves no room for the identity frame and is refused instead of overflowing the batch.
+  fn with_room_for_identity(identity_blob: Blob, payload: FrameBatch) -> Result<(Blob, FrameBatch), ZmqError> {
+    if payload.len() >= FrameBatch::MAX_FRAMES {
+      return Err(ZmqError::ProtocolViolation(
+        "ROUTER: received message leaves no room for the peer identity frame".into(),
+      ));
+    }
+    Ok((identity_blob, payload))
   }
 
   fn transform_qitem_to_app_frames(identity_blob: Blob, payload_frames_vec: FrameBatch) -> FrameBatch {
@@ -547,6 +558,13 @@ impl ISocket for RouterSocket {
     if frames.is_empty() {
       return Err(ZmqError::InvalidMessage(
         "ROUTER send_multipart requires at least an identity frame.".into(),
+      ));
+    }
+
+    // The automatic delimiter takes one of the frames a message can hold.
+    if !self.framing.is_manual() && frames.len() >= FrameBatch::MAX_FRAMES {
+      return Err(ZmqError::InvalidMessage(
+        "ROUTER send_multipart: no room left for the delimiter frame".into(),
       ));
     }
 
